@@ -32,9 +32,11 @@ Proof. vm_compute. split; reflexivity. Qed.
 Example nuc_above_last : nRad Qops exB 9 = 2%nat /\ nRad Qops exB 4 = 2%nat /\ nRad Qops exB 3 = 2%nat /\ nRad Qops exB (5#2) = 1%nat.
 Proof. vm_compute. repeat split; reflexivity. Qed.
 
-(* The limiter is per face: a class outside the step limit can lose through both faces and go
-   negative (psd_1 = 4, both faces remove 4 within dt = 1). *)
-Example two_face_negative :
+(* A class outside the step limit that would lose through both faces (psd_1 = 4, each face asks for
+   40 within dt = 1): the per-face limits cut each to 4, the class-wise limit scales both to 2, the
+   class ends at exactly 0.  (Before kawin commit "fix: limit the total outflow of a size class" the
+   result was -4: the limiter was per face only.) *)
+Example two_face_limited :
   let d := correctdXdt Qops 1 exB [0; 4; 0] [0; -10; 10; 0] 0 (5#2) in
-  nth 1 d 0 = -8 /\ Qlt (4 + 1 * nth 1 d 0) 0.
+  d = [2; -4; 2] /\ Qeq_bool (4 + 1 * nth 1 d 0) 0 = true.
 Proof. vm_compute. split; reflexivity. Qed.
